@@ -23,7 +23,7 @@ CONSTANTS Alpha,     \* the alphabet, a sequence of bytes
 
 \* * $ + - : _ 0 1 2 9 a CR LF   (cfg: Alpha <- Alpha13)
 Alpha13 == <<42, 36, 43, 45, 58, 95, 48, 49, 50, 57, 97, 13, 10>>
-Alpha8 == <<42, 36, 45, 49, 50, 57, 13, 10>>              \* * $ - 1 2 9 CR LF
+Alpha9 == <<42, 36, 45, 48, 49, 50, 57, 13, 10>>          \* * $ - 0 1 2 9 CR LF
 
 VARIABLE cur
 A == Len(Alpha)
